@@ -13,6 +13,15 @@ FIELD_TYPES = {
     "DocumentationAggregator.logger": "ref",
 }
 NULLABLE = ["DocumentationAggregator.logger"]
+# Ownership discipline (assumption): each of these fields holds a list created for it (a `[]` in a constructor)
+# that is never stored in another of these fields.
+OWNED_LIST_FIELDS = [
+    "DocumentationAggregator.documented", "DocumentationAggregator.documented_classes_stack",
+    "DocumentationAggregator.definition_command_stack", "DocumentationAggregator.consumed",
+    "ClassDocumentation.inner_classes", "ClassDocumentation.constructors", "ClassDocumentation.members",
+    "ClassDocumentation.attributes", "RSTWriter.document", "Directive.options",
+    "Command_invocationContext.g_sargs", "Command_invocationContext.g_cargs", "Command_invocationContext.g_children",
+]
 
 
 # ================================================================ doccomment cleaning (C01, C04, C12)
@@ -96,3 +105,428 @@ class clean_doc_lines_c:
                 forall(0, _k, lambda j: cleaned_lines[j] == clean1(lines[j], num_spaces, j)),
                 modifies=["items(cleaned_lines)"]),
     }
+
+
+# ---------------------------------------------------------------- C01 / C04: what cleaning does on the canonical form
+# (taken from the property statement; each lemma is one line shape of the canonical doccomment form, for EVERY text t)
+@spec
+def ws_only(w: str) -> bool:
+    """w consists of spaces and tabs only"""
+    return forall(0, len(w), lambda i: w[i] == " " or w[i] == "\t")
+
+
+@lemma
+def canon_open(k: int):
+    """opening line '#[[[' contributes an empty first line, whatever the block indentation"""
+    props("C01", "C04")
+    requires(k >= 0 and strip_def(clean1("#[[[", k, 0)))
+    ensures(clean1("#[[[", k, 0) == "")
+
+
+@lemma
+def canon_open_text(k: int, t: str):
+    """text on the opening line ('#[[[ text', '#[[[ @module name') is kept whole for every indentation (F11)"""
+    props("C01", "C04", "C12")
+    requires(k >= 0 and strip_def(clean1("#[[[ " + t, k, 0)))
+    ensures(clean1("#[[[ " + t, k, 0) == t)
+
+
+@lemma
+def canon_empty(w: str, j: int):
+    """a bare leader is an empty line"""
+    props("C01", "C04")
+    requires(j > 0 and ws_only(w) and strip_def(clean1(w + "#", len(w), j)))
+    ensures(clean1(w + "#", len(w), j) == "")
+
+
+@lemma
+def canon_text(w: str, t: str, j: int):
+    """'# ' + t yields exactly t: nothing of t is stripped, whatever it starts with"""
+    props("C01", "C04")
+    requires(j > 0 and ws_only(w) and strip_def(clean1(w + "# " + t, len(w), j)))
+    ensures(clean1(w + "# " + t, len(w), j) == t)
+
+
+@lemma
+def canon_close(w: str, j: int):
+    """the closing line contributes an empty last line"""
+    props("C01", "C04")
+    requires(j > 0 and ws_only(w) and strip_def(clean1(w + "#]]", len(w), j).rstrip("#]")))
+    ensures(clean1(w + "#]]", len(w), j).rstrip("#]") == "")
+
+
+@lemma
+def canon_indent(w: str, m: int):
+    """the indentation measured on the closing line is the length of its white-space prefix"""
+    props("C01", "C04")
+    requires(m >= 0 and m <= len(w) and ws_only(w))
+    ensures((m == 0 or (w[len(w) - m] != "#" and (w + "#]]")[len(w) - m] == w[len(w) - m])) and
+            fh(w + "#]]", len(w) - m) == m)
+    induction(m)
+
+
+@lemma
+def canon_leaderless(t: str, j: int):
+    """doccomments written without leaders: an unindented line starting with a letter is kept whole"""
+    props("C01")
+    requires(j > 0 and len(t) > 0 and t[0] != "#" and t[0] != "[" and t[0] != "]" and t[0] != " " and
+             strip_def(clean1(t, 0, j)))
+    ensures(clean1(t, 0, j) == t)
+
+
+# ================================================================ the processors
+@spec
+def sargs(ctx: "ref:Command_invocationContext") -> "list[str]":
+    """texts of the single (non-parenthesised) arguments in source order"""
+    return [a.getText() for a in ctx.single_argument()]
+
+
+@spec
+def wf_cmd(ctx: "ref:Command_invocationContext") -> bool:
+    """T-ANTLR token shapes: an argument text is never empty; a text that starts with a double quote is a
+    quoted argument (ends with one, length >= 2); an unquoted argument cannot end with a double quote"""
+    return forall(0, len(sargs(ctx)),
+                  lambda i: len(sargs(ctx)[i]) >= 1 and
+                  (sargs(ctx)[i][0] != '"' or (len(sargs(ctx)[i]) >= 2 and sargs(ctx)[i][-1] == '"')) and
+                  (sargs(ctx)[i][0] == '"' or sargs(ctx)[i][-1] != '"'))
+
+
+@spec
+def new_entry(agg: "ref:DocumentationAggregator", oldlen: int) -> "ref:DocumentationType":
+    return agg.documented[oldlen]
+
+
+@contract("cminx.aggregator:DocumentationAggregator.process_function")
+class process_function_c:
+    props = ["C03", "C02", "C01"]
+    types = {"def_params": "list[ref:Single_argumentContext]"}
+    raises = {"CMakeSyntaxException": lambda ctx: len(sargs(ctx)) < 1}
+
+    def ensures(self, ctx, docstring):
+        return (len(sargs(ctx)) >= 1 and
+                appended_ref(self.documented, old.self.documented, self.documented[len(old.self.documented)]) and
+                same(self.documented, old.self.documented) and
+                fresh(self.documented[len(old.self.documented)]) and
+                typeof(self.documented[len(old.self.documented)], "FunctionDocumentation"))
+
+    def ensures_entry(self, ctx, docstring):
+        return (cast(self.documented[-1], "FunctionDocumentation").name == sargs(ctx)[0] and
+                cast(self.documented[-1], "FunctionDocumentation").doc == docstring and
+                cast(self.documented[-1], "FunctionDocumentation").has_kwargs ==
+                (self.settings.input.kwargs_doc_trigger_string in docstring) and
+                fresh(cast(self.documented[-1], "FunctionDocumentation").params) and
+                len(cast(self.documented[-1], "FunctionDocumentation").params) == len(sargs(ctx)) - 1 and
+                forall(0, len(sargs(ctx)) - 1,
+                       lambda i: cast(self.documented[-1], "FunctionDocumentation").params[i] ==
+                       re_sub(self.settings.input.function_parameter_name_strip_regex, sargs(ctx)[i + 1])))
+
+    def ensures_stack(self, ctx, docstring):
+        return (appended_ref(self.definition_command_stack, old.self.definition_command_stack,
+                             self.definition_command_stack[-1]) and
+                same(self.definition_command_stack, old.self.definition_command_stack) and
+                fresh(self.definition_command_stack[-1]) and
+                same(self.definition_command_stack[-1].documentation, self.documented[-1]) and
+                self.definition_command_stack[-1].should_document)
+    modifies = ["items(self.documented)", "items(self.definition_command_stack)"]
+
+
+@contract("cminx.aggregator:DocumentationAggregator.process_macro")
+class process_macro_c:
+    props = ["C03", "C02", "C01"]
+    types = {"def_params": "list[ref:Single_argumentContext]"}
+    raises = {"CMakeSyntaxException": lambda ctx: len(sargs(ctx)) < 1}
+
+    def ensures(self, ctx, docstring):
+        return (len(sargs(ctx)) >= 1 and
+                appended_ref(self.documented, old.self.documented, self.documented[len(old.self.documented)]) and
+                same(self.documented, old.self.documented) and
+                fresh(self.documented[len(old.self.documented)]) and
+                typeof(self.documented[len(old.self.documented)], "MacroDocumentation"))
+
+    def ensures_entry(self, ctx, docstring):
+        return (cast(self.documented[-1], "MacroDocumentation").name == sargs(ctx)[0] and
+                cast(self.documented[-1], "MacroDocumentation").doc == docstring and
+                cast(self.documented[-1], "MacroDocumentation").has_kwargs ==
+                (self.settings.input.kwargs_doc_trigger_string in docstring) and
+                fresh(cast(self.documented[-1], "MacroDocumentation").params) and
+                len(cast(self.documented[-1], "MacroDocumentation").params) == len(sargs(ctx)) - 1 and
+                forall(0, len(sargs(ctx)) - 1,
+                       lambda i: cast(self.documented[-1], "MacroDocumentation").params[i] ==
+                       re_sub(self.settings.input.macro_parameter_name_strip_regex, sargs(ctx)[i + 1])))
+
+    def ensures_stack(self, ctx, docstring):
+        return (appended_ref(self.definition_command_stack, old.self.definition_command_stack,
+                             self.definition_command_stack[-1]) and
+                same(self.definition_command_stack, old.self.definition_command_stack) and
+                fresh(self.definition_command_stack[-1]) and
+                same(self.definition_command_stack[-1].documentation, self.documented[-1]) and
+                self.definition_command_stack[-1].should_document)
+    modifies = ["items(self.documented)", "items(self.definition_command_stack)"]
+
+
+@contract("cminx.aggregator:DocumentationAggregator.process_cmake_parse_arguments")
+class process_cmake_parse_arguments_c:
+    """marks the definition on top of the open-definition stack, and nothing else (C03)"""
+    props = ["C03"]
+
+    def ensures(self, ctx, docstring):
+        return (not (len(self.definition_command_stack) > 0 and self.definition_command_stack[-1].should_document and
+                     self.definition_command_stack[-1].documentation is not None) or
+                self.definition_command_stack[-1].documentation.has_kwargs)
+    modifies = ["self.definition_command_stack[-1].documentation.has_kwargs "
+                "if len(self.definition_command_stack) > 0 and self.definition_command_stack[-1].should_document and "
+                "self.definition_command_stack[-1].documentation is not None else None"]
+
+
+# ---------------------------------------------------------------- tests (C11)
+@spec
+def last_kw(p: "list[str]", k: int, kw: str) -> int:
+    """largest index j < k with p[j] == kw, or -1"""
+    return -1 if k <= 0 else (k - 1 if p[k - 1] == kw else last_kw(p, k - 1, kw))
+
+
+@spec
+def name_of(p: "list[str]") -> str:
+    """the argument following the (last) NAME keyword; '' without one"""
+    return "" if last_kw(p, len(p), "NAME") < 0 else p[last_kw(p, len(p), "NAME") + 1]
+
+
+@lemma
+def name_unique(p: "list[str]", i: int, m: int):
+    """C11 as stated: with NAME exactly at position i (no later NAME), the name is the argument following it"""
+    props("C11")
+    requires(i >= 0 and m >= 0 and i + 1 + m <= len(p) and p[i] == "NAME" and
+             forall(i + 1, i + 1 + m, lambda j: p[j] != "NAME"))
+    ensures(last_kw(p, i + 1 + m, "NAME") == i)
+    induction(m)
+
+
+@lemma
+def kw_exists(p: "list[str]", n: int, kw: str):
+    """'shows EXPECTFAIL iff that keyword is among the arguments'"""
+    props("C11")
+    requires(n >= 0 and n <= len(p))
+    ensures((last_kw(p, n, kw) >= 0) == exists(0, n, lambda j: p[j] == kw))
+    induction(n)
+
+
+@contract("cminx.aggregator:DocumentationAggregator.process_ct_add_test")
+class process_ct_add_test_c:
+    props = ["C11", "C02", "C01"]
+
+    def ensures_none(self, ctx, docstring):
+        return (not (len(sargs(ctx)) < 2 or sargs(ctx)[-1] == "NAME") or
+                (len(self.documented) == len(old.self.documented) and
+                 same(self.documented_awaiting_function_def, old.self.documented_awaiting_function_def)))
+
+    def ensures_entry(self, ctx, docstring):
+        return (len(sargs(ctx)) < 2 or sargs(ctx)[-1] == "NAME" or
+                (appended_ref(self.documented, old.self.documented, self.documented[len(old.self.documented)]) and
+                 fresh(self.documented[-1]) and typeof(self.documented[-1], "TestDocumentation") and
+                 cast(self.documented[-1], "TestDocumentation").name == name_of(sargs(ctx)) and
+                 cast(self.documented[-1], "TestDocumentation").doc == docstring and
+                 cast(self.documented[-1], "TestDocumentation").expect_fail ==
+                 (last_kw(sargs(ctx), len(sargs(ctx)), "EXPECTFAIL") >= 0) and
+                 fresh(cast(self.documented[-1], "TestDocumentation").params) and
+                 len(cast(self.documented[-1], "TestDocumentation").params) == 0 and
+                 not cast(self.documented[-1], "TestDocumentation").is_macro and
+                 same(self.documented_awaiting_function_def, self.documented[-1])))
+
+    def ensures_same_list(self, ctx, docstring):
+        return same(self.documented, old.self.documented)
+    modifies = ["items(self.documented)", "self.documented_awaiting_function_def"]
+    loops = {0: Loop(inv=lambda params, name, expect_fail, _k:
+                     name == ("" if last_kw(params, _k, "NAME") < 0 else params[last_kw(params, _k, "NAME") + 1]) and
+                     expect_fail == (last_kw(params, _k, "EXPECTFAIL") >= 0) and
+                     last_kw(params, _k, "NAME") < len(params) - 1,
+                     modifies=[])}
+
+
+@contract("cminx.aggregator:DocumentationAggregator.process_ct_add_section")
+class process_ct_add_section_c:
+    props = ["C11", "C02", "C01"]
+
+    def ensures_none(self, ctx, docstring):
+        return (not (len(sargs(ctx)) < 2 or sargs(ctx)[-1] == "NAME") or
+                (len(self.documented) == len(old.self.documented) and
+                 same(self.documented_awaiting_function_def, old.self.documented_awaiting_function_def)))
+
+    def ensures_entry(self, ctx, docstring):
+        return (len(sargs(ctx)) < 2 or sargs(ctx)[-1] == "NAME" or
+                (appended_ref(self.documented, old.self.documented, self.documented[len(old.self.documented)]) and
+                 fresh(self.documented[-1]) and typeof(self.documented[-1], "SectionDocumentation") and
+                 cast(self.documented[-1], "SectionDocumentation").name == name_of(sargs(ctx)) and
+                 cast(self.documented[-1], "SectionDocumentation").doc == docstring and
+                 cast(self.documented[-1], "SectionDocumentation").expect_fail ==
+                 (last_kw(sargs(ctx), len(sargs(ctx)), "EXPECTFAIL") >= 0) and
+                 fresh(cast(self.documented[-1], "SectionDocumentation").params) and
+                 len(cast(self.documented[-1], "SectionDocumentation").params) == 0 and
+                 not cast(self.documented[-1], "SectionDocumentation").is_macro and
+                 same(self.documented_awaiting_function_def, self.documented[-1])))
+
+    def ensures_same_list(self, ctx, docstring):
+        return same(self.documented, old.self.documented)
+    modifies = ["items(self.documented)", "self.documented_awaiting_function_def"]
+    loops = {0: Loop(inv=lambda params, name, expect_fail, _k:
+                     name == ("" if last_kw(params, _k, "NAME") < 0 else params[last_kw(params, _k, "NAME") + 1]) and
+                     expect_fail == (last_kw(params, _k, "EXPECTFAIL") >= 0) and
+                     last_kw(params, _k, "NAME") < len(params) - 1,
+                     modifies=[])}
+
+
+@spec
+def keep_pos(j: int, idx: int) -> bool:
+    """add_test signature: everything except the NAME keyword at idx and the name at idx+1"""
+    return idx < 0 or (j != idx and j != idx + 1)
+
+
+@spec
+def drop2(p: "list[str]", idx: int, k: int) -> "list[str]":
+    """the first k arguments without positions idx and idx+1, in order"""
+    return [] if k <= 0 else ((drop2(p, idx, k - 1) + [p[k - 1]]) if keep_pos(k - 1, idx) else drop2(p, idx, k - 1))
+
+
+@contract("cminx.aggregator:DocumentationAggregator.process_add_test")
+class process_add_test_c:
+    props = ["C11", "C02", "C01"]
+    types = {"signature": "list[str]"}
+
+    def ensures_none(self, ctx, docstring):
+        return (not (len(sargs(ctx)) < 2 or sargs(ctx)[-1] == "NAME") or
+                len(self.documented) == len(old.self.documented))
+
+    def ensures_entry(self, ctx, docstring):
+        return (len(sargs(ctx)) < 2 or sargs(ctx)[-1] == "NAME" or
+                (appended_ref(self.documented, old.self.documented, self.documented[len(old.self.documented)]) and
+                 fresh(self.documented[-1]) and typeof(self.documented[-1], "CTestDocumentation") and
+                 cast(self.documented[-1], "CTestDocumentation").name == name_of(sargs(ctx)) and
+                 cast(self.documented[-1], "CTestDocumentation").doc == docstring and
+                 fresh(cast(self.documented[-1], "CTestDocumentation").params) and
+                 cast(self.documented[-1], "CTestDocumentation").params ==
+                 drop2(sargs(ctx), last_kw(sargs(ctx), len(sargs(ctx)), "NAME"), len(sargs(ctx)))))
+
+    def ensures_same_list(self, ctx, docstring):
+        return same(self.documented, old.self.documented)
+    modifies = ["items(self.documented)"]
+    loops = {0: Loop(inv=lambda params, name, name_index, _k:
+                     name_index == last_kw(params, _k, "NAME") and
+                     name == ("" if name_index < 0 else params[name_index + 1]) and
+                     name_index < len(params) - 1,
+                     modifies=[]),
+             1: Loop(inv=lambda params, name_index, _out, _k: _out == drop2(params, name_index, _k),
+                     modifies=["items(_out)"], elem="str")}
+
+
+# ---------------------------------------------------------------- variables and options (C10)
+@spec
+def unquote(s: str) -> str:
+    """a quoted argument without its surrounding quotes; any other argument as written"""
+    return s[1:len(s) - 1] if s[0] == '"' else s
+
+
+@contract("cminx.aggregator:DocumentationAggregator.process_set")
+class process_set_c:
+    props = ["C10", "C02", "C01"]
+    types = {"values": "list[str]"}
+
+    def requires(self, ctx, docstring):
+        return wf_cmd(ctx)
+
+    def ensures_none(self, ctx, docstring):
+        return len(sargs(ctx)) >= 1 or len(self.documented) == len(old.self.documented)
+
+    def ensures_entry(self, ctx, docstring):
+        return (len(sargs(ctx)) < 1 or
+                (appended_ref(self.documented, old.self.documented, self.documented[len(old.self.documented)]) and
+                 fresh(self.documented[-1]) and typeof(self.documented[-1], "VariableDocumentation") and
+                 cast(self.documented[-1], "VariableDocumentation").name == sargs(ctx)[0] and
+                 cast(self.documented[-1], "VariableDocumentation").doc == docstring))
+
+    def ensures_unset(self, ctx, docstring):
+        return (len(sargs(ctx)) != 1 or
+                (cast(self.documented[-1], "VariableDocumentation").type == VarType.UNSET and
+                 cast(self.documented[-1], "VariableDocumentation").value is None))
+
+    def ensures_string(self, ctx, docstring):
+        return (len(sargs(ctx)) != 2 or
+                (cast(self.documented[-1], "VariableDocumentation").type == VarType.STRING and
+                 cast(self.documented[-1], "VariableDocumentation").value == unquote(sargs(ctx)[1])))
+
+    def ensures_list(self, ctx, docstring):
+        return (len(sargs(ctx)) <= 2 or
+                (cast(self.documented[-1], "VariableDocumentation").type == VarType.LIST and
+                 cast(self.documented[-1], "VariableDocumentation").value == join(" ", sargs(ctx)[1:])))
+
+    def ensures_same_list(self, ctx, docstring):
+        return same(self.documented, old.self.documented)
+    modifies = ["items(self.documented)"]
+
+
+@contract("cminx.aggregator:DocumentationAggregator.process_option")
+class process_option_c:
+    props = ["C10", "C02", "C01"]
+
+    def ensures_none(self, ctx, docstring):
+        return (len(sargs(ctx)) == 2 or len(sargs(ctx)) == 3 or len(self.documented) == len(old.self.documented))
+
+    def ensures_entry(self, ctx, docstring):
+        return (not (len(sargs(ctx)) == 2 or len(sargs(ctx)) == 3) or
+                (appended_ref(self.documented, old.self.documented, self.documented[len(old.self.documented)]) and
+                 fresh(self.documented[-1]) and typeof(self.documented[-1], "OptionDocumentation") and
+                 cast(self.documented[-1], "OptionDocumentation").name == sargs(ctx)[0] and
+                 cast(self.documented[-1], "OptionDocumentation").doc == docstring and
+                 cast(self.documented[-1], "OptionDocumentation").type == "bool" and
+                 cast(self.documented[-1], "OptionDocumentation").help_text == sargs(ctx)[1] and
+                 cast(self.documented[-1], "OptionDocumentation").value ==
+                 (sargs(ctx)[2] if len(sargs(ctx)) == 3 else None)))
+
+    def ensures_same_list(self, ctx, docstring):
+        return same(self.documented, old.self.documented)
+    modifies = ["items(self.documented)"]
+
+
+# ---------------------------------------------------------------- classes (C09, C08)
+@contract("cminx.aggregator:DocumentationAggregator.process_cpp_class")
+class process_cpp_class_c:
+    props = ["C09", "C08", "C02", "C01"]
+
+    def ensures_none(self, ctx, docstring):
+        return (len(sargs(ctx)) >= 1 or
+                (len(self.documented) == len(old.self.documented) and
+                 len(self.documented_classes_stack) == len(old.self.documented_classes_stack)))
+
+    def ensures_entry(self, ctx, docstring):
+        return (len(sargs(ctx)) < 1 or
+                (appended_ref(self.documented, old.self.documented, self.documented[len(old.self.documented)]) and
+                 fresh(self.documented[-1]) and typeof(self.documented[-1], "ClassDocumentation") and
+                 cast(self.documented[-1], "ClassDocumentation").name == sargs(ctx)[0] and
+                 cast(self.documented[-1], "ClassDocumentation").doc == docstring and
+                 fresh(cast(self.documented[-1], "ClassDocumentation").superclasses) and
+                 cast(self.documented[-1], "ClassDocumentation").superclasses == sargs(ctx)[1:] and
+                 fresh(cast(self.documented[-1], "ClassDocumentation").inner_classes) and
+                 len(cast(self.documented[-1], "ClassDocumentation").inner_classes) == 0 and
+                 fresh(cast(self.documented[-1], "ClassDocumentation").constructors) and
+                 len(cast(self.documented[-1], "ClassDocumentation").constructors) == 0 and
+                 fresh(cast(self.documented[-1], "ClassDocumentation").members) and
+                 len(cast(self.documented[-1], "ClassDocumentation").members) == 0 and
+                 fresh(cast(self.documented[-1], "ClassDocumentation").attributes) and
+                 len(cast(self.documented[-1], "ClassDocumentation").attributes) == 0))
+
+    def ensures_stack(self, ctx, docstring):
+        return (len(sargs(ctx)) < 1 or
+                (appended_ref(self.documented_classes_stack, old.self.documented_classes_stack,
+                              self.documented[-1]) and
+                 same(self.documented_classes_stack, old.self.documented_classes_stack)))
+
+    def ensures_inner(self, ctx, docstring):
+        """registered by name in the inner-class list of the innermost enclosing (shown) class, and of no other"""
+        return (len(sargs(ctx)) < 1 or len(old.self.documented_classes_stack) == 0 or
+                old.self.documented_classes_stack[-1] is None or
+                appended_ref(self.documented_classes_stack[-2].inner_classes,
+                             old.self.documented_classes_stack[-1].inner_classes, self.documented[-1]))
+
+    def ensures_same_list(self, ctx, docstring):
+        return same(self.documented, old.self.documented)
+    modifies = ["items(self.documented)", "items(self.documented_classes_stack)",
+                "items(self.documented_classes_stack[-1].inner_classes) if len(sargs(ctx)) >= 1 and "
+                "len(self.documented_classes_stack) > 0 and self.documented_classes_stack[-1] is not None else None"]
